@@ -338,6 +338,28 @@ func runCase(cs caseSpec, env *wenv, st *runStats) (outcome string, fail *failur
 			cfg = append(cfg, in.bind)
 		}
 	}
+	// the fault-free program must be within every resource's contract (e.g. no pop from an empty log): judged
+	// on the reference alone, before anything runs
+	{
+		dry := map[string]*mres{}
+		for k, v := range model {
+			dry[k] = v.clone()
+		}
+		for s := range secs {
+			t := newTx(dry)
+			for _, o := range secs[s].Ops {
+				in := byName[o.R]
+				if o.K == "r" {
+					if _, err := t.read(in, o); err != nil {
+						return "", nil, err.Error()
+					}
+				} else if err := t.write(in, o, o.V); err != nil {
+					return "", nil, err.Error()
+				}
+			}
+			dry = t.commit()
+		}
+	}
 	script := &gate2.Script{Prog: gate2.Program{Arch: "A", Vars: vars, Sections: secs}}
 	script.ValueOf = func(o gate2.Op) (tla.Value, bool) {
 		if in := byName[o.R]; in != nil && in.valueOf != nil {
